@@ -375,6 +375,18 @@ PROGRAM_RULES = [
      "class R0 { public final int x; public constructor() -> R0 { for (int i = 0; i < 2; i = i + 1) { } this.x = 2; return this; } }"),
     ("final-field:nested-block-in-ctor", "class R0 { public final int x; public constructor() -> R0 { { this.x = 1; } return this; } }",
      "class R0 { public final int x; public constructor() -> R0 { this.x = 1; return this; } }"),
+    ("final-field:ternary-then-in-ctor", "class R0 { public final int x; public constructor(boolean c) -> R0 { c ? this.x = 1; : echo(0); return this; } }",
+     "class R0 { public final int x; public constructor(boolean c) -> R0 { this.x = 1; c ? echo(1); : echo(0); return this; } }"),
+    ("final-field:ternary-else-in-ctor", "class R0 { public final int x; public constructor(boolean c) -> R0 { c ? echo(1); : this.x = 1; return this; } }",
+     "class R0 { public final int x; public constructor(boolean c) -> R0 { c ? echo(1); : echo(0); this.x = 1; return this; } }"),
+    ("final-field:bare-ternary-then-in-ctor", "class R0 { public final int x; public constructor(boolean c) -> R0 { c ? x = 1; : echo(0); return this; } }",
+     "class R0 { public final int x; public constructor(boolean c) -> R0 { x = 1; c ? echo(1); : echo(0); return this; } }"),
+    ("final-field:ternary-both-in-ctor", "class R0 { public final int x; public constructor(boolean c) -> R0 { c ? this.x = 1; : this.x = 2; return this; } }",
+     "class R0 { public final int x; public constructor(boolean c) -> R0 { this.x = 2; c ? echo(1); : echo(0); return this; } }"),
+    ("final-field:else-branch-in-ctor", "class R0 { public final int x; public constructor(boolean c) -> R0 { if (c) { echo(1); } else { this.x = 1; } return this; } }",
+     "class R0 { public final int x; public constructor(boolean c) -> R0 { if (c) { echo(1); } else { echo(0); } this.x = 1; return this; } }"),
+    ("final-field:ternary-in-nested-ternary-in-ctor", "class R0 { public final int x; public constructor(boolean c) -> R0 { if (c) { c ? this.x = 1; : echo(0); } return this; } }",
+     "class R0 { public final int x; public constructor(boolean c) -> R0 { this.x = 1; if (c) { c ? echo(1); : echo(0); } return this; } }"),
     ("final-field:bare-for-update-in-ctor", "class R0 { public final int x; public constructor() -> R0 { for (int i = 0; i < 3; x = i) { i = i + 1; } return this; } }",
      "class R0 { public final int x; public constructor() -> R0 { x = 0; return this; } }"),
     ("private:field-write-in-subclass", "class B0 { private int p; public constructor() -> B0 = default; } class R0 extends B0 { public constructor() -> R0 { super(); return this; } public function m() -> void { this.p = 1; } }",
